@@ -963,3 +963,49 @@ def _(eng, m, g, a):
 def _(eng, m, g, a):
     import models_tok
     ts = models_tok.TS(); models_tok.to_tokens(eng, a[0], ts); return ts
+
+# `&T: ToString` goes through `Display for &T`, i.e. prints like T
+@model(r"^<&(?:mut )?(.+) as ToString>::to_string$")
+def _(eng, m, g, a):
+    inner = m.group(1)
+    if inner == "str": raise Pass()
+    x = a[0]
+    if isinstance(x, Slot) and isinstance(x.get(), Slot): x = x.get()
+    return eng.call("<%s as ToString>::to_string" % inner, [], [x])
+
+# `str::get(range)`: None when out of range or not on a char boundary
+@model(r"^core::str::<impl str>::get$")
+def _(eng, m, g, a):
+    b = cstr(a[0], "str::get").encode(); r = a[1]
+    if not isinstance(r, Agg) or any(isinstance(x, Sc) and x.sym() for x in r.f): raise Unmodelled("str::get with a symbolic or unknown range")
+    k = r.tag.split("::")[-1].split("<")[0]
+    if k == "RangeTo": lo, hi = 0, r.f[0].v
+    elif k == "RangeFrom": lo, hi = r.f[0].v, len(b)
+    elif k == "Range": lo, hi = r.f[0].v, r.f[1].v
+    elif k == "RangeFull": lo, hi = 0, len(b)
+    elif k == "RangeToInclusive": lo, hi = 0, r.f[0].v + 1
+    else: raise Unmodelled("str::get with range kind %s" % r.tag)
+    if lo > hi or hi > len(b): return none()
+    try: return some(Slot([StrV([b[lo:hi].decode()])], 0))
+    except UnicodeDecodeError: return none()
+
+# ends_with / starts_with on strings that hold symbolic characters: decided character by character (one fork each)
+def _sym_affix(eng, m, g, a):
+    recv = deref(a[0])
+    if isinstance(recv, StrV) and any(isinstance(p, tuple) and p[0] == "int" for p in recv.p): raise Pass()
+    chars = str_chars(a[0])
+    if not any(c.sym() for c in chars): raise Pass()
+    ends = m.group(1) == "ends_with"; p = deref(a[1])
+    if isinstance(p, Sc): pat = [p]
+    elif isinstance(p, (StrV, SymStr)): pat = str_chars(p)
+    elif isinstance(p, (Agg, FnPtr)):
+        if not chars: return B(False)
+        return B(eng.branch(eng.call_value(a[1], [chars[-1] if ends else chars[0]])))
+    else: raise Pass()
+    if len(pat) > len(chars): return B(False)
+    seg = chars[len(chars) - len(pat):] if ends else chars[:len(pat)]
+    for x, y in zip(seg, pat):
+        if not eng.branch(eng.binop("Eq", x, y)): return B(False)
+    return B(True)
+MODELS.insert(0, (re.compile(r"^core::str::<impl str>::(ends_with|starts_with)$"), _sym_affix))
+MODELS.insert(0, (re.compile(r"^(?:std::string::)?String::(ends_with|starts_with)$"), _sym_affix))
